@@ -524,6 +524,17 @@ vpsc::Rectangle bounds(vpsc::Rectangles& rs);
 
 class ConstrainedFDLayout;
 
+#ifdef ADAPTAGRAMS_VERIF
+// Verification hook (compiled only with -DADAPTAGRAMS_VERIF): when set, ConstrainedFDLayout::makeFeasible()
+// calls it once per trial of a sub-constraint alternative, after the scan of the unsatisfiable flags:
+// the compound constraint, the dimension, the number of the alternative within the current
+// sub-constraint (0 = cheapest), the vpsc constraint that was tried and whether it was kept.
+#define ADAPTAGRAMS_VERIF_MAKEFEASIBLE_HOOK 1
+typedef void (*VerifMakeFeasibleSink)(const CompoundConstraint *cc, int dim,
+        unsigned alternative, const vpsc::Constraint *constraint, bool accepted);
+extern VerifMakeFeasibleSink verifMakeFeasibleSink;
+#endif
+
 /**
  * @brief  Interface for writing COLA addons to handle topology preserving 
  *         layout.
